@@ -40,6 +40,11 @@ RULE = ("(a) structured stream over a common pool of factors (harness/gen_expr.p
         "multi-world leaves in products and fractions, multi-world leaves with distinct bases (the marginalisation must still "
         "happen). They are INSIDE the quantifier judged by the oracle (WellScopedW) and evaluated on generic positive families "
         "and on random functional SCMs (shared noise across worlds) under the DenNZ guard. "
+        "(d) size and ordering shapes (appended): wide WellScoped leaves (4-6 children, 3-4 parents, 3-4 interventions with "
+        "mixed stars, 6-9 names) under Sums in every range mode and in products / fractions; orderings that cover only the "
+        "event names (subscript-only / range-only names omitted: admissible, the canonicaliser looks up event variables "
+        "only), orderings with counterfactual / value-marked / Intervention elements (admissible: Sequence[str | Variable], "
+        "what canonical_expr_equal itself passes), orderings with repeated elements (malformed: raises or is right). "
         "The branches reached on the real canonicaliser are counted as hit_* tags. A case is non-trivial when the "
         "expression has depth>=3 and at least one Sum or Fraction and its canonical form differs structurally from the input.")
 ASSUMPTIONS = [
